@@ -48,7 +48,7 @@ TDispatch ==
 TDone ==
     /\ Is("Done") /\ cur # <<>> /\ Ev.n = cur.n
     /\ (\A i \in DOMAIN Ev.imgs :
-           /\ \A j \in DOMAIN Ev.imgs[i].iv : InsideStorage(Ev.imgs[i].iv[j], Ev.imgs[i].size)) = TRUE
+           /\ \A j \in DOMAIN Ev.imgs[i].iv : InsideStorage(Ev.imgs[i].iv[j], Ev.imgs[i])) = TRUE
     /\ cur' = <<>> /\ Adv
 
 TInit == l = 1 /\ cur = <<>>
